@@ -10,11 +10,17 @@
    hierarchy_walk (Proofs/NavProofs.v): the pre-order walk from the top-level items through each scope's items
    terminates within the fuel of the model and visits every variable and every scope exactly once; full_name of
    every scope and variable is defined (the parent chain is strictly decreasing).
-   NOT proved: that full_name is the '.'-join of the ancestors' names in the walk's sense, lookup_*, the
-   signal-reference table.  Those are decided by the correspondence run against the rose-tree oracle (MANIFEST
-   level_note). *)
+   hierarchy_lookup (Proofs/LookupProofs.v): lookup_scope is sound (the scope it returns for a path has exactly that path
+   of ancestors' names and own name) and complete (every scope is found under its own path - sibling scopes have
+   different names), and Scope::full_name is the '.'-join of that path.
+   signal_refs_resolve (Proofs/SigTableProofs.v): for every sequence of builder calls, every variable's signal reference
+   lies below num_unique_signals and get_signal_tpe resolves it to the encoding of a variable carrying that reference.
+   hierarchy_lookup_var: lookup_var(_with_index) returns the first declared variable of the looked-up scope (of the top
+   level for an empty path) with the given name and, if asked for, the given index.
+   The tie of the model to hierarchy.rs is the correspondence run against the real builder and the rose-tree oracle
+   (MANIFEST level_note). *)
 From Coq Require Import Permutation.
-From WV Require Import Model.Base Model.Bits Model.WaveMem Model.Hierarchy Proofs.HierProofs Proofs.NavProofs.
+From WV Require Import Model.Base Model.Bits Model.WaveMem Model.Hierarchy Proofs.HierProofs Proofs.NavProofs Proofs.LookupProofs Proofs.SigTableProofs.
 
 Check hierarchy_wellformed :
   forall ops b, balanced 0 ops -> hier_run hb_new ops = Ok b ->
@@ -46,7 +52,34 @@ Check hierarchy_walk :
   (forall s, (s < length (hb_scopes b))%nat -> exists nm, scope_full_name (items_fuel b) b s = Ok nm) /\
   (forall v, (v < length (hb_vars b))%nat -> exists nm, var_full_name b v = Ok nm).
 
+
+Check hierarchy_lookup :
+  forall ops b, balanced 0 ops -> hier_run hb_new ops = Ok b ->
+  (forall path s, lookup_scope b path = Ok (Some s) -> path_of b s = Ok path /\ (s < length (hb_scopes b))%nat) /\
+  (forall s, (s < length (hb_scopes b))%nat ->
+     exists p, path_of b s = Ok p /\ lookup_scope b p = Ok (Some s) /\ scope_full_name (items_fuel b) b s = Ok (join p)).
+
+
+Check signal_refs_resolve :
+  forall ops b, hier_run hb_new ops = Ok b ->
+  forall v vr, nth_error (hb_vars b) v = Some vr ->
+  (v_signal vr < num_unique_signals b)%nat /\
+  exists w vw, nth_error (hb_vars b) w = Some vw /\ v_signal vw = v_signal vr /\ get_signal_tpe b (v_signal vr) = Some (v_enc vw).
+
+
+Check hierarchy_lookup_var :
+  forall ops b path nm index v, balanced 0 ops -> hier_run hb_new ops = Ok b ->
+  lookup_var b path nm index = Ok (Some v) ->
+  exists P vr,
+    (match path with [] => P = None | _ => exists s, lookup_scope b path = Ok (Some s) /\ P = Some s end) /\
+    nth_error (hb_vars b) v = Some vr /\ v_parent vr = P /\ v_name vr = nm /\ (index = None \/ v_index vr = index) /\
+    (forall v' vr', nth_error (hb_vars b) v' = Some vr' -> v_parent vr' = P -> v_name vr' = nm ->
+                    (index = None \/ v_index vr' = index) -> (v <= v')%nat).
+
 Print Assumptions hierarchy_wellformed.
+Print Assumptions hierarchy_lookup_var.
+Print Assumptions signal_refs_resolve.
+Print Assumptions hierarchy_lookup.
 Print Assumptions hierarchy_walk.
 Print Assumptions add_var_inv.
 Print Assumptions add_scope_inv.
